@@ -357,6 +357,9 @@ sstat MainSolver::check() {
         StopWatch sw(query_timer);
     }
     if (isLastFrameUnsat()) { return s_False; }
+    // An exception thrown in the middle of an earlier search (arithmetic overflow in the difference-logic solver) left the
+    // SAT and theory solvers in the state they had at that moment: nothing sound can be derived from it any more
+    if (searchAbortedByException) { return s_Error; }
     sstat rval = simplifyFormulas();
 
     if (config.dump_query()) printCurrentAssertionsAsQuery();
@@ -364,7 +367,10 @@ sstat MainSolver::check() {
     if (rval == s_Undef) {
         try {
             rval = solve();
-        } catch (std::overflow_error const & error) { rval = s_Error; }
+        } catch (std::overflow_error const & error) {
+            rval = s_Error;
+            searchAbortedByException = true;
+        }
         if (rval == s_False) {
             assert(not smt_solver->isOK());
             rememberUnsatFrame(smt_solver->getConflictFrame());
